@@ -331,6 +331,9 @@ func (e *agentEngine) Setup(r *Run) {
 		id[11] = byte(1 << uint(i%8)) // neighbours differ in a single bit
 		e.ids = append(e.ids, id)
 	}
+	if r.Pct(25, "zero-id") {
+		e.ids[0] = [stun.TransactionIDSize]byte{} // the all-zero id is an id like any other
+	}
 	e.errs = []error{errors.New("custom-0"), errors.New("custom-1"), errors.New("custom-2"), nil} // nil must be passed through unchanged too
 	e.model = aInit()
 
